@@ -93,3 +93,21 @@ func vH_C14_padding_arith() {
 		}
 	}
 }
+
+// H14.4 MTU plumbing: the MTU an endpoint is configured with is the MTU its
+// underlay descriptor reports - for EVERY supported value, the boundaries 1280
+// and 1500 included - and maxFragmentSize / maxPaddingSize are computed from
+// that same number (H14.1).
+func vH_C14_mtu_plumbing() {
+	mtu := vNondetInt("mtu")
+	vAssume(mtu >= 1280 && mtu <= 1500)
+	tr := common.StreamTransport
+	if vNondetBool("packet") {
+		tr = common.PacketTransport
+	}
+	p := NewUnderlayProperties(mtu, tr, nil, nil)
+	vAssert(p.MTU() == mtu, "the underlay descriptor carries the configured MTU unchanged (1280 and 1500 included)")
+	vAssert(p.TransportProtocol() == tr, "and the configured transport")
+	b := newBaseUnderlay(vNondetBool("isClient"), mtu, nil)
+	vAssert(b.MTU() == mtu, "the underlay itself works with the configured MTU")
+}
